@@ -561,6 +561,9 @@ func (gen *Generator) GenerateAssert(args []Sexp) error {
 }
 
 func (gen *Generator) GenerateInclude(args []Sexp) error {
+	if gen.env.sandboxed {
+		return fmt.Errorf("include: not available in a sandboxed interpreter")
+	}
 	if len(args) < 1 {
 		return WrongNargs
 	}
